@@ -176,6 +176,7 @@ func (fr *Frame) staticCall(ctx *callCtx, callee *ssa.Function) Val {
 			return fr.inline(ctx, callee, nil, ctx.args)
 		}
 		e.note("unmodelled", "repo call not inlined (depth/recursion): "+key)
+		fr.logCall(ctx, callee)
 		return fr.havocCall(ctx, true)
 	}
 	e.note("unmodelled", "library call without spec: "+name)
@@ -211,8 +212,54 @@ func lastName(s string) string {
 // if ghost, all module stores are havocked too.
 func (fr *Frame) havocCall(ctx *callCtx, ghost bool) Val {
 	e := fr.e
-	for _, a := range ctx.args {
+	for i, a := range ctx.args {
 		e.havocReachable(ctx.st, a.T, map[string]bool{})
+		// a closure argument may be called by the callee: everything it can write is havocked
+		if a.Clo != nil {
+			for _, b := range a.Clo.bindings {
+				if b.T != nil {
+					e.havocReachable(ctx.st, b.T, map[string]bool{})
+				}
+			}
+			mods := map[string]*modInfo{}
+			fr.modsOf(a.Clo.fn, nil, 1, mods, false)
+			var ks []string
+			for k := range mods {
+				ks = append(ks, k)
+			}
+			sort.Strings(ks)
+			for _, k := range ks {
+				if k == "G_*" {
+					ghost = true
+					continue
+				}
+				if srt, ok := e.heapSorts[k]; ok {
+					e.setHeap(ctx.st, k, srt, e.vc.fresh(k, srt))
+				}
+			}
+		}
+		// an unknown operation on a collections store may write it
+		if ctx.common != nil {
+			var av ssa.Value
+			if ctx.common.IsInvoke() {
+				if i == 0 {
+					av = ctx.common.Value
+				} else if i-1 < len(ctx.common.Args) {
+					av = ctx.common.Args[i-1]
+				}
+			} else if i < len(ctx.common.Args) {
+				av = ctx.common.Args[i]
+			}
+			if av != nil {
+				if g := e.ghostOfValue(av); g != nil {
+					for _, suf := range []string{"_v", "_d"} {
+						if srt, ok := e.heapSorts[g.name+suf]; ok {
+							e.setHeap(ctx.st, g.name+suf, srt, e.vc.fresh(g.name+suf, srt))
+						}
+					}
+				}
+			}
+		}
 	}
 	if ghost {
 		e.havocGhost(ctx.st)
@@ -309,6 +356,16 @@ func (e *Engine) callMods(fr *Frame, fn *ssa.Function, x ssa.CallInstruction, de
 		}
 		for _, a := range cc.Args {
 			addType(a.Type())
+			if g := e.ghostOfValue(a); g != nil {
+				addAll(g.name + "_v")
+				addAll(g.name + "_d")
+			}
+			if mc, ok := a.(*ssa.MakeClosure); ok {
+				fr.modsOf(mc.Fn.(*ssa.Function), nil, depth+1, mods, false)
+				for _, b := range mc.Bindings {
+					addType(b.Type())
+				}
+			}
 		}
 		return
 	}
@@ -473,9 +530,30 @@ func (fr *Frame) inline(ctx *callCtx, callee *ssa.Function, bindings []Val, args
 
 // ---------- contract calls ----------
 
+// logCall records that a layer function was called and with which arguments (ghost call log, readable in
+// contracts as called(F) and arg(F, param)).
+func (fr *Frame) logCall(ctx *callCtx, callee *ssa.Function) {
+	e := fr.e
+	name := callee.Name()
+	e.setHeap(ctx.st, "called_"+mangle(name), "Bool", "true")
+	for i, p := range callee.Params {
+		if i >= len(ctx.args) || ctx.args[i].S == "" || ctx.args[i].S == "addr" || len(ctx.args[i].Tup) > 0 {
+			continue
+		}
+		srt := e.vc.sortOf(p.Type())
+		if srt == "GoTuple" {
+			continue
+		}
+		hn := "callarg_" + mangle(name) + "_" + mangle(p.Name())
+		e.setHeap(ctx.st, hn, srt, ctx.args[i].S)
+		e.callArgTypes[hn] = p.Type()
+	}
+}
+
 func (fr *Frame) contractCall(ctx *callCtx, callee *ssa.Function, c *Contract) Val {
 	e := fr.e
 	st := ctx.st
+	fr.logCall(ctx, callee)
 	names := map[string]Val{}
 	for i, p := range callee.Params {
 		if i < len(ctx.args) {
